@@ -168,10 +168,10 @@ def one(ctx, case, tmp, reqs, meta):
         calls.reset()
         ref_model = make_model(case, Calls(), stag, dtag)
         out_ref, nbat_ref = run_rejection(ref_model, case, nb, pool=None)
+        # known finding: the simulator re-ran on parameter values that came from the pool (the priors were skipped,
+        # so the simulator's position in the batch generator's stream shifted)
+        sim_on_stored_params = any(node == 'sim' and 't1' in held_before and bi in held_before['t1'] for node, bi in log_pool)
         if out_pool != out_ref or nbat != nbat_ref:
-            # known finding: the simulator re-ran on parameter values that came from the pool (the priors were skipped,
-            # so the simulator's position in the batch generator's stream shifted)
-            sim_on_stored_params = any(node == 'sim' and 't1' in held_before and bi in held_before['t1'] for node, bi in log_pool)
             ctx.fail_input(where, 'results with the pool differ from the same seeded run without a pool (step %s)' % step,
                            finding='pool-params-stored-sim-reruns' if sim_on_stored_params else None)
             return
@@ -197,7 +197,9 @@ def one(ctx, case, tmp, reqs, meta):
             got = pool.get_batch(bi)
             for n in pool.stores:
                 if n not in got or not np.array_equal(np.asarray(got[n]), np.asarray(fresh[n])):
-                    ctx.fail_input(where, 'pool value of %s for batch %d differs from a fresh computation of that batch' % (n, bi))
+                    shifted = sim_on_stored_params and ('sim', bi) in log_pool and (n == 'sim' or (n, bi) in log_pool)
+                    ctx.fail_input(where, 'pool value of %s for batch %d differs from a fresh computation of that batch' % (n, bi),
+                                   finding='pool-params-stored-sim-reruns' if shifted else None)
                     return
         # model: which operations run in a batch = `needed` of the loaded net (C03 compile/load model)
         from props import c03
